@@ -205,7 +205,7 @@ class Result(object):
     """everything observable about one solve"""
     __slots__ = ('verdict', 'exc', 'solution', 'unimpl', 'need_inputs', 'blocked', 'prompts',
                  'log', 'forms', 'final_inputs', 'solver', 'refused', 'unimpl_list', 'need_inputs_lists',
-                 'blocked_lists', 'schedule', 'store')
+                 'blocked_lists', 'schedule', 'store', 'store_inputs')
 
     def canon(self):
         if self.exc is not None:
@@ -242,6 +242,9 @@ def run_solve(form_list, requested, file_inputs, answer=None, schedule=None, ins
     fl = instrumented(form_list, log) if instrument else list(form_list)
     if store is None:
         store = make_store(file_inputs, layout)
+    # what the user supplied: the file as read at the start plus every typed answer (NOT read back from the store
+    # after the run, so a store that alters what it was given is visible)
+    supplied = {f'{sec}.{k}': v for sec in store.config.sections() for k, v in store.config[sec].items()}
     prompts = []
     r = Result()
     r.refused = False
@@ -259,6 +262,7 @@ def run_solve(form_list, requested, file_inputs, answer=None, schedule=None, ins
         if s is None:
             r.refused = True
             return (None, False)
+        supplied[n] = s
         return (s, True)
 
     s = hsolver.Solver(store, fl, prompt=prompt if answer is not None else None)
@@ -277,7 +281,8 @@ def run_solve(form_list, requested, file_inputs, answer=None, schedule=None, ins
     r.prompts = prompts
     r.log = log
     r.schedule = schedule
-    r.final_inputs = {f'{sec}.{k}': v for sec in store.config.sections() for k, v in store.config[sec].items()}
+    r.store_inputs = {f'{sec}.{k}': v for sec in store.config.sections() for k, v in store.config[sec].items()}
+    r.final_inputs = supplied
     r.forms = sorted(s.forms)
     if r.exc is None:
         r.solution = config_to_dict(s.solution())
